@@ -240,6 +240,13 @@ def oneshot(ctx, kind, B, x, y, label):
     ctx.check((float(v) == 0.0) == bool(e == 0), "C16.o_zero_iff_equal", cell, case, float(v), e, "zero value does not coincide with equal inputs", CHK)
     m.update(tx, ty)
     ctx.check(close(m.compute(), exp), "C16.o_update_compute", cell, case, float(m.compute()), float(exp), "update+compute differs from forward", CHK)
+    if not np.iscomplexobj(x):
+        # the same bits as int64 tensors
+        try:
+            vi = make_metric(kind, B)(tx.to(torch.int64), ty.to(torch.int64))
+            ctx.check(close(vi, exp), "C16.o_exact", {**cell, "dtype": "int64"}, {**case, "dtype": "int64"}, float(vi), float(exp), "rate for int64 inputs is not the exact fraction", CHK)
+        except Exception:
+            ctx.cls("int64_inputs_rejected_" + mk)
     if 0 < e < t:
         ctx.nontrivial(kind, B, hash(np.asarray(x).tobytes()), hash(np.asarray(y).tobytes()))
     ctx.cls(label)
